@@ -1407,6 +1407,9 @@ impl Sim {
             if dump.archetypes.iter().any(|a| a.length == 0) {
                 probes.hit("world_has_empty_archetype");
             }
+            if dump.archetypes.len() > 64 {
+                probes.hit("world_has_more_than_64_archetypes");
+            }
         }
         // C04: exactly-once drops — what is live is exactly what the models hold.
         if !self.balance_off {
